@@ -762,9 +762,28 @@ def _sumsq(a):
     return r
 
 
+DROP_ZERO_IN_NORM = False
+
+
+def _is_const_zero(v):
+    if isinstance(v, SymReal):
+        import z3 as _z3
+        t = _z3.simplify(v.t)
+        return _z3.is_rational_value(t) and t.numerator_as_long() == 0
+    if isinstance(v, _SYMT):
+        return False
+    try:
+        return float(v) == 0.0
+    except Exception:
+        return False
+
+
 def _vec_norm2(a):
     """Euclidean norm of a flat collection; correct first-order part for jets at the origin."""
     flat = list(_np.asarray(a, dtype=object).flat)
+    if DROP_ZERO_IN_NORM:
+        # exact: entries that are identically zero do not contribute (keeps rows with an identically-zero task piecewise linear)
+        flat = [v for v in flat if not _is_const_zero(v)]
     if not flat:
         return 0.0
     if len(flat) == 1:
